@@ -465,7 +465,9 @@ pub fn run(_env: &Env, run: &Run) -> (Stats, Coverage) {
                         for form in 0..4u8 {
                             s3.states += 1;
                             s3.transitions += 1;
-                            crate::props::c13::check_fn(&f, k, start, style, form, uni, &mut s3);
+                            for errset in 0..3u8 {
+                                crate::props::c13::check_fn(&f, k, start, style, form, uni, errset, &mut s3);
+                            }
                         }
                     }
                 }
